@@ -11,14 +11,9 @@ POD structs; nested arbitrarily) that is well formed (`t.ok`) and compiles in th
 their iteration can produce), every configuration `c = ⟨hostLE, ioLE⟩` (so both values of the swap
 flag), every following stream content `rest`.
 
-Finding C15-F1 (open): the raw fast path of `Handler<std::pair<TA, TB>>` is taken whenever both members
-are PODs and no byte swapping is configured, and writes `sizeof(std::pair<TA, TB>)` bytes of the pair
-object *including its padding* (e.g. 8 bytes for `pair<uint8_t, uint32_t>`), whereas the swapping build
-writes the members one after the other (5 bytes).  Round trip, consumption and truncation are not
-affected (proved below for all types); the layout and cross-host clauses hold exactly for the types
-without such a pair (`Ty.padFree`), and are refuted on a concrete witness otherwise
-(`C15Witness.lean`).  The full statements are kept as `C15_layout_statement` /
-`C15_cross_host_statement`.
+Finding C15-F1 (fixed by fixes/C15-1.diff): the raw fast path of `Handler<std::pair<TA, TB>>` used to
+write the pair object including its padding; it is now taken only for pair objects without padding,
+and the layout and cross-host clauses hold for every POD-free type.
 -/
 import DmlcModel.Ser.Layout
 
@@ -74,44 +69,25 @@ theorem C15_truncation_at (c : Cfg) (t : Ty) (hok : t.ok = true) (hs : supported
     decode c t ((encode c t v).take k) = none :=
   (rt_tr c t hok hs v hv).2 k hk
 
-/-- the full layout clause of the property (false of the pinned code: finding C15-F1) -/
-def C15_layout_statement : Prop :=
-  ∀ (c : Cfg) (t : Ty), t.ok = true → t.podFree = true → ∀ v : Val t, wf t v →
-    encode c t v = layout c.ioLE t v
-
-/-- **fixed layout** (all types without a padded POD pair): the bytes written are the documented
-layout — scalars and 64-bit counts in the stream's byte order, elements in iteration order, pair
-members adjacent — a function of `ioLE` and the value only, not of the host's byte order.
-Missing for the full statement: pairs / map entries of two POD members whose `std::pair` object has
-padding, in builds without byte swapping (class `pod-pair-padding`). -/
-theorem C15_layout_partial (c : Cfg) (t : Ty) (hok : t.ok = true) (hpf : t.podFree = true)
-    (hpad : t.padFree = true) (v : Val t) (hv : wf t v) : encode c t v = layout c.ioLE t v :=
-  encode_eq_layout c t hok hpf (fun _ => hpad) v hv
-
-/-- in a build that swaps bytes (host and stream order differ) the layout clause holds for every
-POD-free type, padded pairs included -/
-theorem C15_layout_swapping_build (c : Cfg) (hsw : c.noSwap = false) (t : Ty) (hok : t.ok = true)
-    (hpf : t.podFree = true) (v : Val t) (hv : wf t v) : encode c t v = layout c.ioLE t v :=
-  encode_eq_layout c t hok hpf (fun h => by rw [hsw] at h; cases h) v hv
+/-- **fixed layout**: the bytes written are the documented layout — scalars and 64-bit counts in the
+stream's byte order, elements in iteration order, pair members adjacent — a function of `ioLE` and
+the value only, not of the host's byte order (plain POD structs excluded, as in the property) -/
+theorem C15_layout (c : Cfg) (t : Ty) (hok : t.ok = true) (hpf : t.podFree = true)
+    (v : Val t) (hv : wf t v) : encode c t v = layout c.ioLE t v :=
+  encode_eq_layout c t hok hpf (rawTight_all c t) v hv
 
 /-- the bytes do not depend on the host's byte order -/
-theorem C15_layout_host_independent_partial (h₁ h₂ io : Bool) (t : Ty) (hok : t.ok = true)
-    (hpf : t.podFree = true) (hpad : t.padFree = true) (v : Val t) (hv : wf t v) :
+theorem C15_layout_host_independent (h₁ h₂ io : Bool) (t : Ty) (hok : t.ok = true)
+    (hpf : t.podFree = true) (v : Val t) (hv : wf t v) :
     encode ⟨h₁, io⟩ t v = encode ⟨h₂, io⟩ t v := by
-  rw [C15_layout_partial ⟨h₁, io⟩ t hok hpf hpad v hv, C15_layout_partial ⟨h₂, io⟩ t hok hpf hpad v hv]
+  rw [C15_layout ⟨h₁, io⟩ t hok hpf v hv, C15_layout ⟨h₂, io⟩ t hok hpf v hv]
 
-/-- the full cross-host clause (false of the pinned code: finding C15-F1) -/
-def C15_cross_host_statement : Prop :=
-  ∀ (h io : Bool) (t : Ty), t.ok = true → t.podFree = true → ∀ v : Val t, wf t v →
-    decode ⟨!h, io⟩ t (encode ⟨h, io⟩ t v) = some (v, [])
-
-/-- **data written on one host type is readable on the other** (all types without a padded POD
-pair): a host of the opposite byte order, configured for the same stream byte order, reads the
-equal value and consumes everything. -/
-theorem C15_cross_host_partial (h io : Bool) (t : Ty) (hok : t.ok = true) (hpf : t.podFree = true)
-    (hpad : t.padFree = true) (v : Val t) (hv : wf t v) :
+/-- **data written on one host type is readable on the other**: a host of the opposite byte order,
+configured for the same stream byte order, reads the equal value and consumes everything -/
+theorem C15_cross_host (h io : Bool) (t : Ty) (hok : t.ok = true) (hpf : t.podFree = true)
+    (v : Val t) (hv : wf t v) :
     decode ⟨!h, io⟩ t (encode ⟨h, io⟩ t v) = some (v, []) := by
-  rw [C15_layout_host_independent_partial h (!h) io t hok hpf hpad v hv]
+  rw [C15_layout_host_independent h (!h) io t hok hpf v hv]
   exact C15_consumes_exactly ⟨!h, io⟩ t hok (by simp [supported, hpf]) v hv
 
 end DmlcModel.Props.C15
